@@ -45,7 +45,7 @@ TABLE = {
         'must-pass-through (prune point) path analysis + emptiness-domain dataflow at queue insertions + filter truth tables (Inv-B) + converse release-filter truth table + gate formula enumeration',
         'every function that takes elements out of todo/doing passes a both-empty test that removes the node from the queue before returning; every '
         'insertion into / rebuild of the queue admits only nodes with pending or executing work; with all queued ancestors idle (or none queued) a '
-        'pending target is released and its job returned; the release loop is gated by exactly promotion/pause; the idle observers read the queue',
+        'pending target is released and its job returned; a job leaves the returned batch after its targets were handed out only when they are put back; the release loop is gated by exactly promotion/pause; the idle observers read the queue',
         'termination for every completion order (argued from Inv-B + acyclicity + answering workers); timing of the dispatch tick',
     ),
     'C13': (
@@ -175,7 +175,7 @@ TABLE = {
         'list itself; connectionLost leaves the hand absent on every exit; a task is handed only to a hand popped from _workers together with a message '
         'popped from _cluster under a min(len,len) bound, only while is_pipeline_active() tested true and no life-cycle trigger fired since; notify '
         'aborts and closes when not kept and FSM.load dismisses workers after leaving the active state; task messages carry the job tag, the loop target '
-        '(None for analysis), run id 0 for regress else rerunid(job), and the factory pair; db.next() is called exactly when the stored run id is None',
+        '(None for analysis), run id 0 for regress else rerunid(job), and the factory pair; db.next() is called exactly when the stored run id is None; the node attribute runid is written only by organize',
         'byte-level content of pickled messages; cloud (_agency) placement; strict monotonicity of db.next() (C08); a hand re-registering while it holds a task',
     ),
     'C20': (
@@ -183,7 +183,7 @@ TABLE = {
         'year/month/day of each constructed datetime come from one date object (or a clamped/guarded day); the weekly offset lies in [0,7) and lands '
         'on the requested weekday for all (dow, today); a due event queues its node only in the due branch with the all-targets marker for analyses '
         'and all known targets otherwise; the boot token list only grows, in _delay under "not yet booted", and every other caller of _delay passes '
-        'consume=False; FOUR obligations fail on the tree and are listed as known findings (day-of-month construction and distance, status left by '
+        'consume=False; every moment field _delay dereferences is type-checked by compliant.rule_10; FOUR obligations fail on the tree and are listed as known findings (day-of-month construction and distance, status left by '
         'complete excluded by defer, no re-arm when every event was due)',
         'the designated moment for concrete clocks beyond the structural bounds; reactor timer accuracy; time zones',
     ),
